@@ -19,8 +19,8 @@ RULE = (
     "fields unknown to the reader: reader schema = writer's, an older variant with a generated subset of fields "
     "deleted, or a variant declaring such fields with an incompatible wire type; a minority of bodies crossing the "
     "1/2/3-byte length-prefix boundaries) written with dump(stream, SIZE_DELIMITED) and read from a BytesIO, an object offering read() only, or a BufferedReader with a buffer of 8 / 16 / 64 / 4096 bytes; for each stream EVERY cut point "
-    "0..len(stream) is enumerated (streams longer than 600 bytes: every cut within 16 bytes of a frame boundary plus a "
-    "stride of ~300 cuts through the bodies). "
+    "0..len(stream) is enumerated (streams longer than 3000 bytes: every cut within 16 bytes of a frame boundary, every record boundary inside a frame, the 64 KiB marks, plus a "
+    "comb of ~300 cuts through the bodies; two fixed items make frames beyond 64 KiB). "
     "Oracle, intact stream: successive load(stream, SIZE_DELIMITED) return the written sequence, stream.tell() after "
     "call i is the spec offset of message i+1, the stream equals the concatenation of the reference's "
     "serialize_length_prefixed framing of the same payloads and parse_length_prefixed reads it back. Cut stream: "
@@ -170,7 +170,27 @@ def targets(ctx):
         # every cut point
         n_inside = 0
         seen = set()
-        for cut in range(len(data)):
+        if len(data) <= 3000:
+            cuts = range(len(data))
+        else:
+            # long streams: every cut within 16 bytes of a frame boundary, every record boundary inside a frame (+-1), the
+            # 64 KiB marks, and a comb of ~300 cuts through the bodies
+            pts = set()
+            for o in offsets:
+                pts.update(range(max(0, o - 16), min(len(data), o + 17)))
+            for fi2, o in enumerate(offsets[:-1]):
+                body0 = o + len(wire.enc_varint(len(payloads[fi2])))
+                try:
+                    for bnd in wire.record_boundaries(payloads[fi2]):
+                        pts.update(x for x in (body0 + bnd - 1, body0 + bnd, body0 + bnd + 1) if 0 <= x < len(data))
+                except wire.WireError:
+                    pass
+                for mark in (65535, 65536, 65537, 131072):
+                    if body0 + mark < len(data):
+                        pts.add(body0 + mark)
+            pts.update(range(0, len(data), max(1, len(data) // 300)))
+            cuts = sorted(pts)
+        for cut in cuts:
             # which frame / region is the cut in?
             fi_ = max(i for i in range(len(offsets)) if offsets[i] <= cut)
             at_boundary = cut == offsets[fi_]
@@ -202,7 +222,7 @@ def targets(ctx):
         labs.append("stream:" + ("read_only_object" if only_read is True else (f"BufferedReader({only_read})" if only_read else "BytesIO")))
         if any(it.get("sized_then_filled") for it in items):
             labs.append("instance_sized_before_filled_in_place")
-        return Eval(fails, weight=1 + len(data), nontrivial_count=n_inside + (1 if multi else 0), labels=labs)
+        return Eval(fails, weight=1 + len(cuts), nontrivial_count=min(n_inside, len(cuts)) + (1 if multi else 0), labels=labs)
 
     def ev(case):
         if "only_cut" in case:  # replay of a single cut point
@@ -251,6 +271,10 @@ def targets(ctx):
         {"msg": "Times", "tree": {"ts": -500000, "dur": -500000, "r_ts": [-1, 0], "o_dur": -1}},
         {"msg": "Maps", "tree": {"m_string_leaf": [["", {}]], "m_string_empty": [["k", {}]], "m_int32_rec": [[0, {}]], "m_string_int64": [["", 0]]}},
     ] + ([{"msg": "Repeats", "tree": {"r_fixed64": [7] * 2050}}] if ctx.thorough else []) + [
+        # a frame beyond 64 KiB made of a few records (one huge, some small before and after it)
+        {"msg": "Scalars", "tree": {"f_int32": 5, "f_string": "s" * 66000, "f_bytes": b"tail", "f_bool": True}},
+        {"msg": "Repeats", "tree": {"r_int32": [1, 2], "r_bytes": [b"x" * 40000, b"y" * 30000, b"z"], "r_string": ["end"]}},
+    ] + [
         {"msg": "Repeats", "tree": {"r_leaf": [{"i": 1}] * 40, "r_string": ["ab"] * 30}, "drop": [18]},
     ])
     strat = st.tuples(st.lists(st.one_of(item(), item(), item(), item(), item(), big_item), min_size=0, max_size=6),
